@@ -74,6 +74,12 @@ def json_values(tier, seed):
     for k in keys:
         yield '{%s: 1}' % k
         yield '{%s: {%s: [null]}}' % (k, k)
+    # keys that are words of the language or of an object's own vocabulary: a key is just a string
+    from spec import es5_lexical as _lx
+    for w in sorted(set(_lx.RESERVED_WORDS) | {'value', 'key', 'length', '__proto__', 'constructor', 'toString', 'NaN', 'undefined', 'Infinity', 'get', 'set',
+                                               'arguments', 'eval', 'prototype', 'hasOwnProperty'}):
+        yield '{"%s": 0, "status": "ok"}' % w
+        yield '{"a": 1, "%s": [2, {"%s": null}], "z": 3}' % (w, w)
     yield '[[[[1]]]]'
     yield '{"a": {"b": {"c": {"d": [1, {"e": null}]}}}}'
     yield '[{"a": [1, 2, {"b": [true, false, null]}], "c": -0.5}, [], {}, [[]], [{}]]'
